@@ -74,11 +74,12 @@ def class_edit_cases(ctx, rng, nlibs, per):
     libs, libs2, cases, infos = [], [], [], []
     for li in range(nlibs):
         lib = cfggen.gen_library(rng, f"c02k_{ctx.seed}_{li}")
-        lib2, info = edits.class_edit(rng, lib)
+        graphs = [cfggen.gen_graph(rng, lib, max_nodes=rng.choice([3, 6, 10])) for _ in range(per)]
+        used = {nd["cls"] for g in graphs for nd in g["nodes"]}
+        lib2, info = edits.class_edit(rng, lib, prefer=used)
         libs.append(lib)
         libs2.append(lib2)
-        for _ in range(per):
-            g = cfggen.gen_graph(rng, lib, max_nodes=rng.choice([3, 6, 10]))
+        for g in graphs:
             cases.append({"lib": li, "steps": id_steps(g, "A"), "graph": g, "class_edit": info})
     return libs, libs2, cases
 
@@ -103,7 +104,7 @@ def correspond(ctx):
     if len(good) < len(cases) * 0.9:
         raise RuntimeError(f"too many unbuildable cases: {next(r['error'] for r in res if r['error'])}")
     # class edits
-    klibs, klibs2, kcases = class_edit_cases(ctx, rng, ctx.scale(4, 20), ctx.scale(15, 60))
+    klibs, klibs2, kcases = class_edit_cases(ctx, rng, ctx.scale(12, 40), ctx.scale(6, 40))
     payload = [{"lib": c["lib"], "steps": c["steps"]} for c in kcases]
     r1 = identlib.run_cases(ctx, klibs, payload, shards=4)[None]
     r2 = identlib.run_cases(ctx, klibs2, payload, shards=4)[None]
@@ -119,6 +120,18 @@ def correspond(ctx):
                              {"graph": case["graph"], "class_edit": case["class_edit"]})
         good.append((case, a))
         good.append((case, b))
+    # launcher / workspace / run mode: the same task really submitted in three environments
+    slibs, scases = identlib.submit_cases(ctx, rng, "c02sub", ctx.scale(2, 8), ctx.scale(8, 40))
+    for case, rec in zip(scases, identlib.run_submit(ctx, slibs, scases)):
+        if rec["error"]:
+            ctx.count("submit_case_errors", rec["error"][:60])
+            continue
+        ctx.case({"submit": case["graph"]}, True)
+        ctx.count("edit_kind", "launcher+workspace+run_mode")
+        ids = {v["env"]: v["identifier"] for v in rec["variants"]}
+        if len(set(ids.values()) | {rec["unsubmitted"]}) != 1:
+            ctx.monitor_fail("environment-changes-identifier", f"identifier depends on launcher / workspace / run mode: {ids}, unsubmitted {rec['unsubmitted']}",
+                             {"graph": case["graph"], "identifiers": ids})
     try:
         mouts = identlib.model_outputs(ctx, [r for _, r in good])
     except Exception as e:
